@@ -411,10 +411,11 @@ def _identifiers(repo, rep):
     # identifier(): suffix or id(prefix)
     f = repo.func(COMP + "identifier")
     t = src(f.node.body[0])
-    fm = [n for n in ast.walk(f.node) if isinstance(n, ast.Call)
-          and isinstance(n.func, ast.Attribute) and n.func.attr == "format"
-          and isinstance(n.func.value, ast.Constant)
-          and n.func.value.value == "__{}_{}" and len(n.args) == 2]
+    class _F:
+        def __init__(self, args):
+            self.args = args
+    fm = [_F(a_) for t_, a_, n_ in L.fmt_sites(f.node)
+          if t_ == "__%s_%s" and len(a_) == 2]
 
     def unwrap(e):
         while isinstance(e, ast.Call) and src(e.func) == "mangle" and \
